@@ -1,9 +1,205 @@
-(* Properties_C63.v — C63: forwarding loops and Max-Forwards are honoured. Statements only. *)
+(* Properties_C63.v — C63: forwarding loops and Max-Forwards are honoured.
+   Statements only; proofs live in LoopmfProofs.v. The application string inside the Via comment, the int64 limits,
+   the isspace table and the header ids come from gen/Loopmf_gen.v and gen/HdrTable_gen.v, regenerated from the
+   code on every run. `nonul` = the text has no NUL byte (the request parser rejects NUL in header blocks; host and
+   application strings are C strings). *)
 Require Import SquidV.Bytes SquidV.HopModel SquidV.LoopmfModel SquidV.LoopmfProofs.
 Require Import SquidV.gen.HdrTable_gen SquidV.gen.Loopmf_gen.
 Local Open Scope N_scope.
 
+(* the hand-written model and the code agree on which header ids are Via / Max-Forwards, Via is a list header
+   (getList asserts it) and Max-Forwards an int64 header (getInt64 asserts it) *)
 Theorem C63_tables_consistent :
   ID_VIA = gen_id_via /\ ID_MAX_FORWARDS = gen_id_max_forwards /\ gen_via_is_list = true /\ gen_max_forwards_is_int64 = true.
 Proof. exact gen_tables_consistent. Qed.
 Print Assumptions C63_tables_consistent.
+
+(* ---------------- forwarding loops ---------------- *)
+
+(* the strstr model (strListIsSubstr / String::find) finds the needle iff the text is a ++ needle ++ b *)
+Theorem C63_substring_search_correct : forall needle hay,
+  is_substr needle hay = true <-> exists a b, hay = a ++ needle ++ b.
+Proof. exact is_substr_spec. Qed.
+Print Assumptions C63_substring_search_correct.
+
+(* loopDetected is set exactly when a Via field exists and the ", "-joined value of all Via fields contains
+   " <host> (<app>)" *)
+Theorem C63_loop_detection_is_substring_of_joined_via : forall c hs,
+  loop_detected c hs = true <->
+  has_via hs = true /\ exists a b, via_value hs = a ++ c_str (this_cache2 c) ++ b.
+Proof. exact loop_detected_spec. Qed.
+Print Assumptions C63_loop_detection_is_substring_of_joined_via.
+
+(* an entry " <host> (<app>)" is found wherever it stands: in any of several Via fields (field names in any letter
+   case, by the regenerated header table), at any position of the list, whatever precedes and follows it *)
+Theorem C63_own_via_entry_detected_anywhere : forall c hs h pre post,
+  nonul (c_host c) = true -> nonul (c_app c) = true ->
+  In h hs -> is_via h = true -> nonul pre = true ->
+  h_value h = pre ++ this_cache2 c ++ post ->
+  loop_detected c hs = true.
+Proof. exact own_entry_detected. Qed.
+Print Assumptions C63_own_via_entry_detected_anywhere.
+
+(* round trip of Via construction and loop detection: whatever this Squid sends upstream as Via (addVia: received
+   list + "<major>.<minor> <host> (<app>)", any HTTP version, any received headers hs0) is recognised when it comes
+   back in any Via field, however later hops extended it *)
+Theorem C63_forwarded_via_recognised_on_return : forall c major minor hs0 hs h post,
+  nonul (c_host c) = true -> nonul (c_app c) = true ->
+  In h hs -> is_via h = true ->
+  h_value h = fwd_via c major minor hs0 ++ post ->
+  loop_detected c hs = true.
+Proof. exact via_round_trip. Qed.
+Print Assumptions C63_forwarded_via_recognised_on_return.
+
+(* every forwarded request carries the received Via list followed by this Squid's entry, and its Max-Forwards
+   fields are those computed by the copy loop *)
+Theorem C63_forwarded_request_shape : forall c m major minor cache nocache hs cnd mfs via,
+  handle c m major minor cache nocache hs = Forward cnd mfs via ->
+  via = fwd_via c major minor hs /\ mfs = fwd_mfs m hs.
+Proof. exact forwarded_via. Qed.
+Print Assumptions C63_forwarded_request_shape.
+
+(* "a request whose Via already names this Squid is not forwarded again" — PARTIAL: proved for requests carrying
+   this Squid's entry as Squid writes it, for every method / version / header block, provided the store lookup
+   does not return a STALE entry (missing: stale hits, see C63_own_via_stale_hit_refuted; entries that name the
+   host differently, see the two _refuted theorems below) *)
+Theorem C63_own_via_not_forwarded_partial : forall c m major minor cache nocache hs h pre post,
+  nonul (c_host c) = true -> nonul (c_app c) = true ->
+  In h hs -> is_via h = true -> nonul pre = true ->
+  h_value h = pre ++ this_cache2 c ++ post ->
+  cache <> CStale \/ nocache = true ->
+  exists st, handle c m major minor cache nocache hs = Local st.
+Proof. exact own_via_not_forwarded_partial. Qed.
+Print Assumptions C63_own_via_not_forwarded_partial.
+
+(* the same for a request this Squid forwarded earlier and that came back *)
+Theorem C63_returned_request_not_forwarded_partial : forall c major minor hs0 m' major' minor' cache nocache hs h post,
+  nonul (c_host c) = true -> nonul (c_app c) = true ->
+  In h hs -> is_via h = true ->
+  h_value h = fwd_via c major minor hs0 ++ post ->
+  cache <> CStale \/ nocache = true ->
+  exists st, handle c m' major' minor' cache nocache hs = Local st.
+Proof. exact returned_request_not_forwarded_partial. Qed.
+Print Assumptions C63_returned_request_not_forwarded_partial.
+
+(* the residue is exactly the stale-hit revalidation: a detected loop goes upstream only as a conditional
+   revalidation of a stale entry (never on TRACE, never with no-cache) *)
+Theorem C63_detected_loop_forwarded_only_as_stale_revalidation : forall c m major minor cache nocache hs cnd mfs via,
+  loop_detected c hs = true ->
+  handle c m major minor cache nocache hs = Forward cnd mfs via ->
+  cache = CStale /\ nocache = false /\ cnd = true /\ is_trace m = false.
+Proof. exact loop_forwarded_only_stale. Qed.
+Print Assumptions C63_detected_loop_forwarded_only_as_stale_revalidation.
+
+(* 403 is produced by loop detection only *)
+Theorem C63_no_loop_no_403 : forall c m major minor cache nocache hs,
+  loop_detected c hs = false -> handle c m major minor cache nocache hs <> Local st_forbidden.
+Proof. exact no_loop_no_403. Qed.
+Print Assumptions C63_no_loop_no_403.
+
+(* REFUTED at full strength (known finding F16): stale cached object + exactly this Squid's own Via entry =>
+   loopDetected is set and yet the request is sent upstream (processExpired never looks at the flag).
+   The witness is replayed against the running proxy (corpus/C63/known.jsonl). *)
+Theorem C63_own_via_stale_hit_refuted :
+  exists c hs h, In h hs /\ is_via h = true /\ h_value h = w_11 ++ this_cache c /\ loop_detected c hs = true /\
+    is_local (handle c M_GET 1 1 CStale false hs) = false.
+Proof. exact own_via_stale_hit_refuted. Qed.
+Print Assumptions C63_own_via_stale_hit_refuted.
+
+(* REFUTED (known finding F15): an entry naming this host in another letter case is forwarded on a plain miss *)
+Theorem C63_own_via_other_case_refuted :
+  exists c hs h host', In h hs /\ is_via h = true /\ ci_eqb host' (c_host c) = true /\
+    h_value h = w_11 ++ host' ++ [32; 40] ++ c_app c ++ [41] /\
+    is_local (handle c M_GET 1 1 CNone false hs) = false.
+Proof. exact own_via_other_case_refuted. Qed.
+Print Assumptions C63_own_via_other_case_refuted.
+
+(* REFUTED (known finding F15): "1.1 <host>" without the comment is forwarded on a plain miss *)
+Theorem C63_own_via_without_comment_refuted :
+  exists c hs h, In h hs /\ is_via h = true /\ h_value h = w_11 ++ c_host c /\
+    is_local (handle c M_GET 1 1 CNone false hs) = false.
+Proof. exact own_via_without_comment_refuted. Qed.
+Print Assumptions C63_own_via_without_comment_refuted.
+
+(* ---------------- Max-Forwards ---------------- *)
+
+(* OPTIONS / TRACE whose (first) Max-Forwards field reads 0 is answered by Squid (501 / echo 200), never forwarded,
+   whatever else the request carries *)
+Theorem C63_maxforwards_zero_answered_locally : forall c m major minor cache nocache hs,
+  is_options m || is_trace m = true -> mf_first hs = 0%Z ->
+  handle c m major minor cache nocache hs = Local (if is_options m then st_not_implemented else st_ok).
+Proof. exact mf_zero_local. Qed.
+Print Assumptions C63_maxforwards_zero_answered_locally.
+
+(* ... and 501 is produced only that way *)
+Theorem C63_501_only_for_options_maxforwards_zero : forall c m major minor cache nocache hs,
+  handle c m major minor cache nocache hs = Local st_not_implemented -> is_options m = true /\ mf_first hs = 0%Z.
+Proof. exact local_501_only_mf_zero. Qed.
+Print Assumptions C63_501_only_for_options_maxforwards_zero.
+
+(* the strtoll model reads "%d"-printed numbers back: Max-Forwards: n is n for every n <= INT64_MAX (regenerated) *)
+Theorem C63_decimal_maxforwards_read_exactly : forall n,
+  (Z.of_N n <= llong_max)%Z -> parse_offset (dec_N n) = Some (Z.of_N n).
+Proof. exact parse_offset_decimal. Qed.
+Print Assumptions C63_decimal_maxforwards_read_exactly.
+
+(* every Max-Forwards value sent upstream is a received (parsed) value minus one: never negative, never equal to a
+   received value unless another field says one more, computed inside int64; and only TRACE / OPTIONS carry any *)
+Theorem C63_forwarded_maxforwards_is_received_minus_one : forall c m major minor cache nocache hs cnd mfs via x,
+  handle c m major minor cache nocache hs = Forward cnd mfs via -> In x mfs ->
+  is_trace m || is_options m = true /\
+  exists e, In e hs /\ is_mf e = true /\ parse_offset (h_value e) = Some (x + 1)%Z /\ (0 <= x < llong_max)%Z.
+Proof. exact forwarded_mfs_sound. Qed.
+Print Assumptions C63_forwarded_maxforwards_is_received_minus_one.
+
+(* the property's second sentence — PARTIAL: for a request with one decimal Max-Forwards field n <= INT64_MAX that is
+   not refused as a loop: n = 0 is answered locally, n > 0 is forwarded with exactly [n-1]
+   (missing: n > INT64_MAX, see the _refuted theorem) *)
+Theorem C63_maxforwards_decimal_partial : forall c m major minor nocache hs e n,
+  is_options m || is_trace m = true ->
+  filter is_mf hs = [e] -> h_value e = dec_N n -> (Z.of_N n <= llong_max)%Z ->
+  loop_detected c hs = false ->
+  handle c m major minor CNone nocache hs =
+    if n =? 0 then Local (if is_options m then st_not_implemented else st_ok)
+    else Forward false [(Z.of_N n - 1)%Z] (fwd_via c major minor hs).
+Proof. exact maxforwards_decimal_partial. Qed.
+Print Assumptions C63_maxforwards_decimal_partial.
+
+(* REFUTED beyond int64 (known finding): OPTIONS with Max-Forwards: 9223372036854775808 is forwarded WITHOUT a
+   Max-Forwards field (strtoll ERANGE => getInt64 = -1 => the field is dropped, not decremented or capped) *)
+Theorem C63_maxforwards_beyond_int64_refuted :
+  exists c hs e n, filter is_mf hs = [e] /\ h_value e = dec_N n /\ (llong_max < Z.of_N n)%Z /\ loop_detected c hs = false /\
+    handle c M_OPTIONS 1 1 CNone false hs = Forward false [] (fwd_via c 1 1 hs).
+Proof. exact maxforwards_beyond_int64_refuted. Qed.
+Print Assumptions C63_maxforwards_beyond_int64_refuted.
+
+(* ---------------- non-vacuity ---------------- *)
+(* own entry in the middle of the second of two Via fields, field name in upper case: detected, GET miss => 403 *)
+Example C63_example_own_entry_second_field :
+  let hs := [mk_via (map N.of_nat [49;46;48;32;102;114;101;100]%nat);
+             {| h_name := map N.of_nat [86;73;65]%nat;
+                h_value := map N.of_nat [49;46;49;32;97]%nat ++ [44; 32] ++ w_11 ++ this_cache w_cfg ++ [44; 32; 49; 46; 49; 32; 98] |}] in
+  nonul (c_host w_cfg) = true /\ nonul (c_app w_cfg) = true /\
+  loop_detected w_cfg hs = true /\ handle w_cfg M_GET 1 1 CNone false hs = Local st_forbidden.
+Proof. vm_compute. repeat split; reflexivity. Qed.
+
+(* what is forwarded for a request that already has a Via field, and that it is refused when it returns *)
+Example C63_example_round_trip :
+  let hs0 := [mk_via (map N.of_nat [49;46;48;32;102;114;101;100]%nat)] in
+  let back := [mk_via (fwd_via w_cfg 1 1 hs0 ++ map N.of_nat [44;32;49;46;49;32;122]%nat)] in
+  handle w_cfg M_POST 1 0 CNone false back = Local st_forbidden.
+Proof. vm_compute. reflexivity. Qed.
+
+(* Max-Forwards: 5 on OPTIONS => forwarded with 4; Max-Forwards: 0 on TRACE => echoed locally; INT64_MAX is decremented *)
+Example C63_example_maxforwards :
+  (exists via, handle w_cfg M_OPTIONS 1 1 CNone false [mk_mf (dec_N 5)] = Forward false [4%Z] via) /\
+  handle w_cfg M_TRACE 1 1 CNone false [mk_mf (dec_N 0)] = Local st_ok /\
+  (exists via, handle w_cfg M_TRACE 1 1 CNone false [mk_mf (dec_N 9223372036854775807)] = Forward false [9223372036854775806%Z] via) /\
+  loop_detected w_cfg [mk_mf (dec_N 5)] = false /\ filter is_mf [mk_mf (dec_N 5)] = [mk_mf (dec_N 5)].
+Proof. vm_compute. repeat split; try reflexivity; eexists; reflexivity. Qed.
+
+(* fresh hit with own Via: served from cache, nothing forwarded; stale + no-cache: 403 *)
+Example C63_example_cache_states :
+  let hs := [mk_via (w_11 ++ this_cache w_cfg)] in
+  handle w_cfg M_GET 1 1 CFresh false hs = Local st_ok /\ handle w_cfg M_GET 1 1 CStale true hs = Local st_forbidden.
+Proof. vm_compute. split; reflexivity. Qed.
